@@ -23,6 +23,28 @@
   take ALL children with the tag wherever they stand (`find_children`, base.py:958-961).
   `serialize` mirrors to_node: attributes and children are written in `_fields` order
   (base.py:1147-1188), absent values are skipped.
+
+  Extension C06X (class side; every XSD type reachable in the 16 bundled schema versions already lies
+  inside the content-model fragment, what kept pairs outside was the class side):
+    * `derived` rows - fields of `_fields` that are READ-ONLY Python properties (`NumMatchCollections`,
+      `NumCODTimes`, `NumAPCs`, PVP `Size`/`Format`, `RMA.ImageType`, `RcvDemodType`, ...): from_node
+      reads the child and the constructor ignores it; to_node writes `getattr(self, field)` whenever
+      it is not None (base.py:1147-1151).  What is written is a function of the rest of the element;
+      the model keeps it abstract (`ClassEntry.derive : tag -> children -> Option text`, `none` = the
+      property is None, nothing written).  The property's premise "the document keeps the
+      bookkeeping the schema cannot express" is `Bookkept`: at every element read by a class with
+      derived rows, the children named like a derived row are exactly what `derive` yields.
+    * stored properties with a setter (`SCP.ECF/LLH`, `NODATA`, `LocalDateTime`, `RcvFMRate`) are
+      `single` rows (the generic from_node / to_node treat them so); their subtrees are opaque.
+    * classes whose to_node override only re-orders / appends rows (`super().to_node(exclude=...)`
+      followed by `for entry in self._X: entry.to_node(doc, TAG, parent=node)`) are ordinary tables
+      whose rows are listed in OUTPUT order, hidden list rows included (translate/xsd2lean.py reads
+      the override's AST; nothing else is accepted).
+    * from_node overrides that test for a legacy child before delegating to the generic reader:
+      `divertIf` (a child with one of these tags sends parsing down a pre-1.0 path, MatchInfo
+      `Collect`) and `divertUnless` (absence of the child does, Grid `WgtType/WindowName`).  The
+      legacy path is NOT modelled: `parse` yields a deliberately empty element there, so the theorem
+      has to show (and does, from `guardsOKB`) that a valid tree never takes it.
   Classes that override to_node/from_node, and types outside the fragment, are *opaque*
   (`none` in the tables): `parse` keeps the subtree as it is and `validB` accepts it; what sarpy
   really does there is covered by the document oracle of harness/c06.py only.
@@ -50,6 +72,7 @@ inductive RowKind where
   | attr     -- `_set_as_attribute`
   | single   -- scalar / child object / array container: at most one child element, the first one is read
   | multi    -- `_collections_tags` list: every child element with the tag
+  | derived  -- read-only property: nothing is read, `ClassEntry.derive` says what is written
   deriving DecidableEq, Repr, Inhabited
 
 structure Row where
@@ -64,10 +87,15 @@ def elemRows (tab : ClassTab) : List Row := tab.filter (fun r => r.kind != .attr
 
 abbrev ClassId := Nat
 
-/-- one class: its table and the class of the objects stored under each element row -/
+/-- one class: its table (element rows in OUTPUT order), the class of the objects stored under each element
+    row, what the read-only properties write (`derive tag children`, `none` = nothing), and the legacy guards
+    of a from_node override -/
 structure ClassEntry where
   tab : ClassTab
   child : Name → ClassId
+  derive : Name → List Xml → Option String := fun _ _ => none
+  divertIf : List Name := []
+  divertUnless : List Name := []
 
 /-- all classes; `none` = opaque (class with hand-written to_node/from_node) -/
 abbrev Tabs := ClassId → Option ClassEntry
@@ -200,15 +228,29 @@ def keep {α} : RowKind → List α → List α
   | .multi, l => l
   | _, l => l.take 1
 
+/-- what to_node writes for a read-only property row: one text element, or nothing when the property is None -/
+def derivedOut (e : ClassEntry) (tag : Name) (ks : List Xml) : List Xml :=
+  match e.derive tag ks with
+  | some s => [.node tag [] s []]
+  | none => []
+
+/-- does the from_node override leave the generic reader for its legacy path on these children? -/
+def diverted (e : ClassEntry) (tags : List Name) : Bool :=
+  e.divertIf.any (fun n => tags.contains n) || e.divertUnless.any (fun n => !tags.contains n)
+
 mutual
-/-- `Serializable.from_node` -/
+/-- `Serializable.from_node` (with the legacy guard of an overriding from_node in front) -/
 def parse (T : Tabs) : ClassId → Xml → Val
   | c, .node tag as text ks =>
     match T c with
     | none => .raw (.node tag as text ks)
     | some e =>
+      if diverted e (tagsOf ks) then .raw (.node tag [] "" [])     -- legacy path: not modelled, nothing is kept
+      else
       .obj tag ((attrRows e.tab).map (fun r => lookupAttr r.tag as)) text
-        (((elemRows e.tab).map (fun r => keep r.kind (parseKids T (e.child r.tag) r.tag ks))).flatten)
+        (((elemRows e.tab).map (fun r =>
+            if r.kind == .derived then (derivedOut e r.tag ks).map Val.raw
+            else keep r.kind (parseKids T (e.child r.tag) r.tag ks))).flatten)
 /-- the children named `tag`, parsed with class `c` -/
 def parseKids (T : Tabs) (c : ClassId) (tag : Name) : List Xml → List Val
   | [] => []
@@ -239,6 +281,32 @@ def valTag : Val → Name
   | .obj t _ _ _ => t
   | .raw (.node t _ _ _) => t
 end
+
+/-! ### the bookkeeping premise -/
+
+/-- the children named like the derived row `tag` are exactly what the class would write there -/
+def derivedOK (e : ClassEntry) (tag : Name) (ks : List Xml) : Bool :=
+  match e.derive tag ks, ks.filter (fun k => rootTag k == tag) with
+  | some s, [.node _ [] x []] => x == s
+  | none, [] => true
+  | _, _ => false
+
+mutual
+/-- the tree keeps the bookkeeping of the classes that read it: at every element read by a table-driven class,
+    each derived row finds in the input exactly the element it will write -/
+def bookkeptB (T : Tabs) : ClassId → Xml → Bool
+  | c, .node _ _ _ ks =>
+    match T c with
+    | none => true
+    | some e => (elemRows e.tab).all (fun r => r.kind != .derived || derivedOK e r.tag ks) && bookkeptKids T e.child ks
+def bookkeptKids (T : Tabs) (child : Name → ClassId) : List Xml → Bool
+  | [] => true
+  | k :: ks => bookkeptB T (child (rootTag k)) k && bookkeptKids T child ks
+end
+
+def Bookkept (T : Tabs) (c : ClassId) (t : Xml) : Prop := bookkeptB T c t = true
+
+instance (T : Tabs) (c : ClassId) (t : Xml) : Decidable (Bookkept T c t) := by unfold Bookkept; infer_instance
 
 /-! ### content equivalence -/
 
@@ -281,6 +349,17 @@ def conformsB (tab : ClassTab) (m : CModel) : Bool :=
     && (rowTags tab == modelTags m)
     && (attrTags tab).all (fun t => m.attrs.any (fun d => d.name == t))
 
+/-- the element particles that stand directly in the top-level sequence with minOccurs >= 1 -/
+def requiredTags : List Group → List Name
+  | [] => []
+  | .elem e :: gs => if 1 ≤ e.min then e.tag :: requiredTags gs else requiredTags gs
+  | .choice _ _ :: gs => requiredTags gs
+
+/-- the legacy guards of a from_node override never fire on a valid tree: no `divertIf` tag is a particle of the
+    model, every `divertUnless` tag is a required particle of the top-level sequence -/
+def guardsOKB (dIf dUnless : List Name) (m : CModel) : Bool :=
+  dIf.all (fun n => !(modelTags m).contains n) && dUnless.all (fun n => (requiredTags m.groups).contains n)
+
 /-- `serialize ∘ parse` -/
 def roundtrip (T : Tabs) (c : ClassId) (t : Xml) : Xml := serialize T c (parse T c t)
 
@@ -296,6 +375,8 @@ structure ClassData where
   id : ClassId
   tab : ClassTab
   children : List (Name × ClassId)
+  divertIf : List Name := []
+  divertUnless : List Name := []
   deriving Repr, Inhabited
 
 structure TypeData where
@@ -309,8 +390,16 @@ def lookupChild (m : List (Name × Nat)) (n : Name) : Nat :=
   | some p => p.2
   | none => 0
 
-def mkTabs (cs : List ClassData) : Tabs :=
-  fun c => (cs.find? (fun d => d.id == c)).map (fun d => ⟨d.tab, lookupChild d.children⟩)
+/-- what the read-only properties of every class write: a parameter of the presentation (the theorems hold for
+    every such function; the harness compares the real values) -/
+abbrev Deriver := ClassId → Name → List Xml → Option String
+
+def noDerive : Deriver := fun _ _ _ => none
+
+def mkTabsD (D : Deriver) (cs : List ClassData) : Tabs :=
+  fun c => (cs.find? (fun d => d.id == c)).map (fun d => ⟨d.tab, lookupChild d.children, D d.id, d.divertIf, d.divertUnless⟩)
+
+def mkTabs (cs : List ClassData) : Tabs := mkTabsD noDerive cs
 
 def mkSchema (ts : List TypeData) : Schema :=
   fun t => (ts.find? (fun d => d.id == t)).map (fun d => ⟨d.model, lookupChild d.children⟩)
@@ -324,7 +413,7 @@ def closedB (cs : List ClassData) (ts : List TypeData) (pairs : List (ClassId ×
     | some e =>
       match mkSchema ts p.2 with
       | none => false
-      | some te => conformsWeakB e.tab te.model
+      | some te => conformsWeakB e.tab te.model && guardsOKB e.divertIf e.divertUnless te.model
           && (modelTags te.model).all (fun n => pairs.contains (e.child n, te.child n)))
 
 end Sarpy.Spec.XsdFmt
